@@ -123,7 +123,7 @@ Proof.
       * cbn [fst]. rewrite (counts_trivial _ (new_round_ph s)). apply K_trivial, new_round_ph.
       * apply start_requesting_K.
     + destruct fr.
-      * cbn [fst]. destruct (pending s); unfold K; cbn; rewrite Hph; exact I.
+      * cbn [fst]. destruct (pending s); unfold K; cbn; rewrite ?Hph; exact I.
       * cbn [fst]. rewrite (counts_trivial _ (apply_peers_ph s ps)). apply K_trivial, apply_peers_ph.
   - (* Requesting *)
     unfold K in HK. rewrite Hph in HK.
@@ -226,7 +226,8 @@ Lemma vote_ignored s id :
   estep s (ERecv (VoteResp id)) = (s, []).
 Proof.
   unfold estep, recv. destruct (ph s) as [|fr c p|v rem voters|o] eqn:Hph; try reflexivity.
-  intros Hn. destruct (mem id rem) eqn:Hm; [|reflexivity]. apply mem_In in Hm. contradiction.
+  - now destruct fr.
+  - intros Hn. destruct (mem id rem) eqn:Hm; [|reflexivity]. apply mem_In in Hm. contradiction.
 Qed.
 
 Lemma counted_once s id v rem voters :
@@ -249,35 +250,35 @@ Theorem follower_only_member s e id :
 Proof.
   unfold started. intros H0 H1.
   assert (Hnd : is_done s = false).
-  { unfold is_done. destruct (ph s) as [| | |[|x|]] eqn:E; try reflexivity; try discriminate.
+  { unfold is_done. destruct (ph s) as [| | |o] eqn:E; try reflexivity.
     exfalso. rewrite estep_done in H1 by (unfold is_done; now rewrite E). cbn [fst] in H1. rewrite E in H1.
-    destruct (mem x (peers s)); discriminate. }
+    destruct o as [|x|]; try discriminate. destruct (mem x (peers s)); discriminate. }
   assert (Hfw : forall s', ph s' = Waiting \/ ph s' = Done Failed -> started s' = FollowerServer id -> False).
   { intros s' [E|E]; unfold started; rewrite E; discriminate. }
   assert (Hsr : started (fst (start_requesting s)) = FollowerServer id -> False).
   { unfold start_requesting. destruct (pending s); [apply Hfw, apply_peers_ph|].
     destruct (N.leb _ _); unfold started; cbn; discriminate. }
-  unfold estep in H1. destruct (ph s) as [|fr c p|v rem voters|o] eqn:Hph; [| | |discriminate].
+  unfold estep in H1. destruct (ph s) as [|fr c p|v rem voters|o] eqn:Hph; [| | |unfold is_done in Hnd; rewrite Hph in Hnd; discriminate].
   - destruct e as [m| |ps]; [|exfalso; now apply Hsr|exfalso; exact (Hfw _ (apply_peers_ph s ps) H1)].
     unfold recv in H1. rewrite Hph in H1. unfold started in *.
     destruct m as [i p|i|i|i| | ]; cbn [fst] in H1; rewrite ?Hph in H1; try discriminate.
-    + destruct (prio_ge p (prio s)); cbn in H1; [discriminate|rewrite Hph in H1; discriminate].
-    + destruct (is_part_of_cluster s i); cbn in H1; [|rewrite Hph in H1; discriminate].
+    + destruct (prio_ge p (prio s)); cbn [fst set_ph ph peers] in H1; [discriminate|rewrite Hph in H1; discriminate].
+    + destruct (is_part_of_cluster s i); cbn [fst set_ph ph peers] in H1; [|rewrite Hph in H1; discriminate].
       destruct (mem i (peers s)) eqn:Hm; [|discriminate]. injection H1 as <-. apply mem_In in Hm. auto.
   - destruct e as [m| |ps].
     + assert (H1' : started (fst (recv s m)) = FollowerServer id) by (destruct fr; exact H1). clear H1. rename H1' into H1.
       unfold recv in H1. rewrite Hph in H1. unfold started in *.
       destruct m as [i p0|i|i|i| | ]; cbn [fst] in H1; rewrite ?Hph in H1; try discriminate.
-      cbn in H1. destruct (mem i (peers s)) eqn:Hm; [|discriminate]. injection H1 as <-. apply mem_In in Hm. auto.
+      cbn [fst set_ph ph peers] in H1. destruct (mem i (peers s)) eqn:Hm; [|discriminate]. injection H1 as <-. apply mem_In in Hm. auto.
     + exfalso. destruct fr; [exact (Hfw _ (new_round_ph s) H1)|now apply Hsr].
     + exfalso. destruct fr; [|exact (Hfw _ (apply_peers_ph s ps) H1)].
-      cbn [fst] in H1. unfold started in H1. destruct (pending s); cbn in H1; rewrite Hph in H1; discriminate.
+      cbn [fst] in H1. unfold started in H1. destruct (pending s); cbn [fst set_ph ph peers] in H1; rewrite ?Hph in H1; discriminate.
   - destruct e as [m| |ps]; [|exfalso; exact (Hfw _ (new_round_ph s) H1)|exfalso; exact (Hfw _ (apply_peers_ph s ps) H1)].
     exfalso. unfold recv in H1. rewrite Hph in H1. unfold started in H1.
     destruct m as [i p|i|i|i| | ]; cbn [fst] in H1; rewrite ?Hph in H1; try discriminate.
-    + destruct (prio_ge p (prio s)); cbn in H1; [discriminate|rewrite Hph in H1; discriminate].
-    + destruct (mem i rem); [|cbn in H1; rewrite Hph in H1; discriminate].
-      destruct (N.leb _ _); cbn in H1; discriminate.
+    + destruct (prio_ge p (prio s)); cbn [fst set_ph ph peers] in H1; [discriminate|rewrite Hph in H1; discriminate].
+    + destruct (mem i rem); [|cbn [fst set_ph ph peers] in H1; rewrite Hph in H1; discriminate].
+      destruct (N.leb _ _); cbn [fst set_ph ph peers] in H1; discriminate.
 Qed.
 
 (* messages that never matter: heartbeat responses, empty datagrams, heartbeats of non-members while waiting *)
@@ -292,13 +293,14 @@ Lemma foreign_ignored s m :
   estep s (ERecv m) = (s, []).
 Proof.
   destruct m as [i p|i|i|i| | ]; intros H; try contradiction.
-  - unfold estep, recv. destruct (ph s) as [|fr c q|v rem voters|o] eqn:Hph; try reflexivity.
-    + destruct H as [[-> _]|(f & c & q & E)]; [reflexivity|discriminate].
-    + destruct H as [[-> _]|(f & c & q & E)]; [reflexivity|discriminate].
+  - unfold estep, recv. destruct (ph s) as [|fr c0 q0|v rem voters|o] eqn:Hph; try reflexivity.
+    + destruct H as [[-> _]|(f & c1 & q1 & E)]; [reflexivity|discriminate].
+    + now destruct fr.
+    + destruct H as [[-> _]|(f & c1 & q1 & E)]; [reflexivity|discriminate].
   - now apply vote_ignored.
-  - unfold estep, recv. destruct (ph s) as [|fr c q|v rem voters|o] eqn:Hph; try reflexivity.
+  - unfold estep, recv. destruct (ph s) as [|fr c0 q0|v rem voters|o] eqn:Hph; try reflexivity.
     + destruct H as [[_ ->]|(v & r & vs & E)]; [reflexivity|discriminate].
     + destruct H as [[E _]|(v & r & vs & E)]; discriminate.
-  - unfold estep, recv. destruct (ph s); reflexivity.
-  - unfold estep, recv. destruct (ph s); reflexivity.
+  - unfold estep, recv. destruct (ph s) as [|fr c0 q0|v rem voters|o]; try reflexivity. now destruct fr.
+  - unfold estep, recv. destruct (ph s) as [|fr c0 q0|v rem voters|o]; try reflexivity. now destruct fr.
 Qed.
